@@ -112,6 +112,8 @@ def machine(g, depth):
         elif kind == "Map":
             key = g.pick(["Iterator", "ItemProcessor"])
             s = {"Type": "Map", "ItemsPath": "$.items", "ResultPath": "$.m", key: machine(g, depth + 1)}
+            if g.int(0, 1):
+                s["MaxConcurrency"] = g.pick([0, 1, 2])
         states[nm] = s
     for i, nm in enumerate(names):
         s = states[nm]
@@ -164,7 +166,7 @@ def mutate(g, defn):
     nm = g.pick(names)
     s = m["States"][nm]
     op = g.pick(["drop", "drop", "wrong_type", "wrong_type", "retarget", "retarget", "retag", "dup_name", "both", "end_false", "unreachable", "extra_field",
-                 "machine_field", "empty_states", "choice_shape", "rename", "empty_member", "empty_member", "non_object_member", "non_object_member", "dup_name_sibling", "dup_name_sibling", "odd_named_defective", "odd_named_defective"])
+                 "machine_field", "empty_states", "choice_shape", "rename", "empty_member", "empty_member", "non_object_member", "non_object_member", "dup_name_sibling", "dup_name_sibling", "odd_named_defective", "odd_named_defective", "max_concurrency"])
     label = op
     if op == "drop":
         fields = [f for f in s if f != "Comment"]
@@ -305,6 +307,14 @@ def mutate(g, defn):
         m["States"]["Zq0"] = {"Type": "Choice", "Choices": [{"Variable": "$.flag", "BooleanEquals": True, "Next": k}], "Default": m["StartAt"]}
         m["StartAt"] = "Zq0"
         label = "odd_named_defective:%s" % defect
+    elif op == "max_concurrency":
+        maps = [x for p2, m2 in sc for x in m2["States"].values() if isinstance(x, dict) and x.get("Type") == "Map"]
+        if maps:
+            v = g.pick([-1, -2, -1.0, 1.5, -0.5, "2", True, 10 ** 9])
+            g.pick(maps)["MaxConcurrency"] = v
+            label = "max_concurrency:%r" % (v,)
+        else:
+            label = "max_concurrency:n/a"
     elif op == "rename":
         m["States"][nm + "_renamed"] = m["States"].pop(nm)
     elif op == "empty_member":
@@ -666,7 +676,7 @@ def main(tier, seed, replay=None):
         run_shards(camp, __name__, "shard", 16, examples=2500)
         fuzz.campaign(camp, __name__, runs=40000, shards=16)
     else:
-        run_shards(camp, __name__, "shard", 8, examples=120)
+        run_shards(camp, __name__, "shard", 8, examples=300)
         if fuzz.available():
             fuzz.campaign(camp, __name__, runs=800, shards=8)
         else:
